@@ -28,6 +28,23 @@ def tmpfile(ext):
     return os.path.join(TMP, f'f{os.getpid()}_{_counter[0]}.{ext}')
 
 
+def classify(v):
+    """value class of one descriptor entry: `<list|array>:<asc|unsorted|rep|const>:<int|str|float>`"""
+    form = 'array' if isinstance(v, np.ndarray) else 'list'
+    xs = list(np.asarray(v).ravel().tolist())
+    x0 = xs[0] if xs else 0
+    dt = 'str' if isinstance(x0, str) else 'float' if isinstance(x0, float) else 'int'
+    if len(set(xs)) == 1 and len(xs) > 1:
+        order = 'const'
+    elif len(set(xs)) < len(xs):
+        order = 'rep'
+    elif all(a < b for a, b in zip(xs, xs[1:])):
+        order = 'asc'
+    else:
+        order = 'unsorted'
+    return f'{form}:{order}:{dt}'
+
+
 class World:
     """small, seeded universe of rsatoolbox objects"""
 
@@ -40,6 +57,12 @@ class World:
         # subsample_pattern produces) / a different pair per RDM (as from_partials produces)
         self.nan_mode = ['none', 'common', 'per-rdm'][seed % 3]
         self.variant = seed % 2          # 0: list-valued descriptors, 1: numpy-array-valued
+        # descriptor value classes (round 4): every object carries int / float / str descriptors that
+        # are ascending without repeats, unsorted, or with repeats; which dtype has which order
+        # rotates with `rot`, which of them a callable is told to *use* rotates with (rot, alt)
+        self.rot = (seed // 2) % 3
+        self.alt = (seed // 6) % 2       # 0: an ascending repeat-free descriptor is selected, random=True
+        self.noauto = set()              # option names the recipe has already decided
         self.n_cond = 4 + (seed // 2) % 2
         self.n_rdm = 3
 
@@ -134,9 +157,69 @@ class World:
     def _d(self, v):
         return np.array(v) if self.variant else list(v)
 
-    def conds(self, n=None):
+    # ---- descriptor value classes -------------------------------------------------------
+    @staticmethod
+    def _unsorted(vals):
+        """a fixed non-ascending arrangement of distinct values (no random draw: a model and its
+           data built from the same seed carry identical descriptors)"""
+        vals = list(vals)
+        return vals[1::2] + vals[::2] if len(vals) >= 2 else vals
+
+    def ordered(self, vals, order):
+        """`vals` ascending without repeats -> the requested order class"""
+        vals = list(vals)
+        if order == 'asc':
+            return vals
+        if order == 'unsorted':
+            return self._unsorted(vals)
+        return [vals[i // 2] for i in range(len(vals))]          # 'rep': sorted, with repeats
+
+    def int_desc(self, n, base=10):
+        """integer labels: ascending repeat-free (rot 0, 2) / unsorted (rot 1)"""
+        return self._d(self.ordered([base + i for i in range(n)], ['asc', 'unsorted', 'asc'][self.rot]))
+
+    def float_desc(self, n, base=0.5):
+        """float labels: unsorted (rot 0) / ascending repeat-free (rot 1) / with repeats (rot 2)"""
+        return self._d(self.ordered([base + 1.0 * i for i in range(n)], ['unsorted', 'asc', 'rep'][self.rot]))
+
+    def note_desc(self, family, d):
+        """coverage tags `desc:<family>:<list|array>:<asc|unsorted|rep|const>:<int|str|float>`"""
+        for k, v in d.items():
+            if k == 'index':
+                continue
+            self.tag(f'desc:{family}:' + classify(v))
+
+    def pdesc(self, absent_ok=False):
+        """name of the pattern descriptor a callable is told to group by.  alt 0: the ascending
+           repeat-free one of the seed's dtype (int / float / str) — as an ndarray exactly what
+           np.unique / np.sort / np.asarray would hand back *unchanged*; alt 1: the default / an
+           unsorted one / one with repeats (int, float or str, flipping with seed // 12)"""
+        self.noauto.add('pattern_descriptor')
+        flip = (self.seed // 12) % 2
+        name = [['stim', 'pos', 'cond'],
+                [[None if absent_ok else 'cond', 'pos'][flip], 'stim', ['cat', 'pos'][flip]]][self.alt][self.rot]
+        return name
+
+    def rdesc(self, absent_ok=False):
+        """name of the rdm descriptor a callable is told to group by (same scheme)"""
+        self.noauto.add('rdm_descriptor')
+        flip = (self.seed // 12) % 2
+        name = [['sub', 'ses', 'name'],
+                [[None if absent_ok else 'name', 'ses'][flip], 'sub', ['grp', 'ses'][flip]]][self.alt][self.rot]
+        return name
+
+    def random_opt(self):
+        """option `random` of the set generators: True (alt 0), False / absent (alt 1)"""
+        self.noauto.add('random')
+        r = True if self.alt == 0 else [False, None][self.variant]
+        self.tag('random:' + ('default' if r is None else str(r).lower()))
+        return r
+
+    def conds(self, n=None, order=None):
         n = n or self.n_cond
         c = [f'c{i}' for i in range(n)]
+        if order == 'asc':
+            return c
         self.rng.shuffle(c)
         if c == sorted(c):
             c[0], c[1] = c[1], c[0]
@@ -151,14 +234,34 @@ class World:
         if positive:
             d = np.abs(d) + 0.125
         d = self.with_nans(d, nan)
-        conds = conds or self.conds(n_cond)
-        return RDMs(
+        # condition labels (str): unsorted and repeat-free, ascending for rot 2 
+        if not conds:
+            conds = self.conds(n_cond)
+            if self.rot == 2:
+                conds = sorted(conds)
+        rd = {'name': self._d([f'r{i}' for i in range(n_rdm)]),
+              'grp': self._d([i // 2 for i in range(n_rdm)]),
+              'sub': self.int_desc(n_rdm, 20),
+              'ses': self.float_desc(n_rdm, 1.25)}
+        pd = {'cond': self._d(conds),
+              'cat': self._d([i % 2 for i in range(n_cond)]),
+              'stim': self.int_desc(n_cond, 10),
+              'pos': self.float_desc(n_cond, 0.5)}
+        self.note_desc('rdm', rd)
+        self.note_desc('pattern', pd)
+        r = RDMs(
             d, dissimilarity_measure='squared euclidean',
             descriptors={'session': 'sesA', 'subj': 7},
-            rdm_descriptors={'name': self._d([f'r{i}' for i in range(n_rdm)]),
-                             'grp': self._d([i // 2 for i in range(n_rdm)])},
-            pattern_descriptors={'cond': self._d(conds),
-                                 'cat': self._d([i % 2 for i in range(n_cond)])})
+            rdm_descriptors=rd, pattern_descriptors=pd)
+        if self.variant and self.rot == 0:
+            # the library-managed `index` as an ndarray, as bootstrap_testset* leave it behind
+            # (`data.pattern_descriptors['index'] = np.arange(n_cond)`) — same values
+            r.pattern_descriptors['index'] = np.arange(r.n_cond)
+            r.rdm_descriptors['index'] = np.arange(r.n_rdm)
+            self.tag('desc:index:array')
+        else:
+            self.tag('desc:index:list')
+        return r
 
     def euclid_rdms(self, n_rdm=2, conds=None, nan=None):
         """squared euclidean RDMs of random point clouds (valid distance matrices)"""
@@ -179,15 +282,28 @@ class World:
         m = self._vals(n_obs * n_ch, -20, 60).reshape(n_obs, n_ch)
         obs = [(c, r) for r in range(n_rep) for c in range(n_cond)]
         self.rng.shuffle(obs)
+        od, cd = self._ds_desc(obs, n_obs, n_ch, ['V1', 'V1', 'V2', 'V2', 'IT'])
         return Dataset(
-            m, descriptors={'subj': 3, 'task': 'view'},
-            obs_descriptors={'conds': self._d([f'c{c}' for c, _ in obs]),
-                             'runs': self._d([f'run{r}' for _, r in obs]),
-                             'trial': self._d(list(range(n_obs))),
-                             'sess': self._d(['s1'] * n_obs)},
-            channel_descriptors={'rois': self._d(['V1', 'V1', 'V2', 'V2', 'IT'][:n_ch]),
-                                 'hemi': self._d(['L'] * n_ch),
-                                 'vox': self._d([f'v{i}' for i in range(n_ch)])})
+            m, descriptors={'subj': 3, 'task': 'view'}, obs_descriptors=od, channel_descriptors=cd)
+
+    def _ds_desc(self, obs, n_obs, n_ch, rois):
+        """observation / channel descriptors of a dataset: str with repeats (`conds`, `runs`,
+           `rois`), constant (`sess`, `hemi`), ascending repeat-free int / str (`trial`, `vox`) and
+           the rotating int / float classes (`blk`, `onset`, `chan`, `depth`)"""
+        od = {'conds': self._d([f'c{c}' for c, _ in obs]),
+              'runs': self._d([f'run{r}' for _, r in obs]),
+              'trial': self._d(list(range(n_obs))),
+              'sess': self._d(['s1'] * n_obs),
+              'blk': self.int_desc(n_obs, 30),
+              'onset': self.float_desc(n_obs, 0.25)}
+        cd = {'rois': self._d(rois[:n_ch]),
+              'hemi': self._d(['L'] * n_ch),
+              'vox': self._d([f'v{i}' for i in range(n_ch)]),
+              'chan': self.int_desc(n_ch, 40),
+              'depth': self.float_desc(n_ch, 1.5)}
+        self.note_desc('obs', od)
+        self.note_desc('channel', cd)
+        return od, cd
 
     def count_dataset(self):
         ds = self.dataset()
@@ -200,15 +316,9 @@ class World:
         m = self._vals(n_obs * n_ch * n_time, -20, 80).reshape(n_obs, n_ch, n_time)
         obs = [(c, r) for r in range(n_rep) for c in range(n_cond)]
         self.rng.shuffle(obs)
+        od, cd = self._ds_desc(obs, n_obs, n_ch, ['V1', 'V2', 'V2'])
         return TemporalDataset(
-            m, descriptors={'subj': 3},
-            obs_descriptors={'conds': self._d([f'c{c}' for c, _ in obs]),
-                             'runs': self._d([f'run{r}' for _, r in obs]),
-                             'trial': self._d(list(range(n_obs))),
-                             'sess': self._d(['s1'] * n_obs)},
-            channel_descriptors={'rois': self._d(['V1', 'V2', 'V2'][:n_ch]),
-                                 'hemi': self._d(['L'] * n_ch),
-                                 'vox': self._d([f'v{i}' for i in range(n_ch)])},
+            m, descriptors={'subj': 3}, obs_descriptors=od, channel_descriptors=cd,
             time_descriptors={'time': np.array([0.0, 0.5, 1.0, 1.5][:n_time])})  # bin_time needs an array
 
     def model(self, kind='fixed'):
@@ -272,18 +382,37 @@ def _recipes():
             sel[1] = sel[0]
         return sel
     L = lambda v: (lambda: v)  # noqa: E731
-    for meth, mk in (('subset', lambda w: w.pick([L(['name', 'r1']), L(['grp', 0]), L(['name', np.array(['r0', 'r2'])]),
-                                                  lambda: ['name', names(w, ['r0', 'r1', 'r2'])],
-                                                  L(['name', ['r0', 'r1', 'r2']]), L(['index', [0, 1, 2]])])()),
-                     ('subsample', lambda w: w.pick([L(['name', ['r1', 'r1', 'r2']]), L(['name', 'r2']),
-                                                     lambda: ['name', names(w, ['r0', 'r1', 'r2'], rep=True)]])()),
-                     ('subset_pattern', lambda w: w.pick([L(['cond', ['c0', 'c2', 'c3']]), L(['cat', 1]),
-                                                          lambda: ['cond', names(w, ['c0', 'c1', 'c2', 'c3'])],
-                                                          L(['cond', 'c2']),
-                                                          lambda: ['cond', [f'c{i}' for i in range(w.n_cond)]],
-                                                          lambda: ['index', np.arange(w.n_cond)]])()),
-                     ('subsample_pattern', lambda w: w.pick([L(['cond', ['c1', 'c1', 'c3', 'c0']]), L(['cond', 'c3']),
-                                                             lambda: ['cond', names(w, ['c0', 'c1', 'c2', 'c3'], rep=True)]])())):
+
+    def AV(by, vals):
+        """selection values as an ndarray (unsorted, with repeats — what a bootstrap draw looks like)"""
+        def f(w=None):
+            return [by, np.array(vals)]
+        f.array_value = True
+        return f
+
+    def chosen(w, options):
+        o = w.pick(options)
+        if getattr(o, 'array_value', False):
+            w.tag('value:array')
+        return o()
+    for meth, mk in (('subset', lambda w: chosen(w, [L(['name', 'r1']), L(['grp', 0]), AV('name', ['r0', 'r2']),
+                                                    lambda: ['name', names(w, ['r0', 'r1', 'r2'])],
+                                                    L(['name', ['r0', 'r1', 'r2']]), L(['index', [0, 1, 2]]),
+                                                    AV('sub', [22, 20])])),
+                     ('subsample', lambda w: chosen(w, [L(['name', ['r1', 'r1', 'r2']]), L(['name', 'r2']),
+                                                       lambda: ['name', names(w, ['r0', 'r1', 'r2'], rep=True)],
+                                                       AV('sub', [21, 20, 21]), AV('ses', [2.25, 1.25]),
+                                                       AV('name', ['r2', 'r0', 'r2'])])),
+                     ('subset_pattern', lambda w: chosen(w, [L(['cond', ['c0', 'c2', 'c3']]), L(['cat', 1]),
+                                                            lambda: ['cond', names(w, ['c0', 'c1', 'c2', 'c3'])],
+                                                            L(['cond', 'c2']),
+                                                            lambda: ['cond', [f'c{i}' for i in range(w.n_cond)]],
+                                                            lambda: ['index', np.arange(w.n_cond)],
+                                                            AV('stim', [13, 10, 11])])),
+                     ('subsample_pattern', lambda w: chosen(w, [L(['cond', ['c1', 'c1', 'c3', 'c0']]), L(['cond', 'c3']),
+                                                               lambda: ['cond', names(w, ['c0', 'c1', 'c2', 'c3'], rep=True)],
+                                                               AV('cond', ['c3', 'c1', 'c1', 'c0']),
+                                                               AV('stim', [12, 10, 12]), AV('pos', [1.5, 0.5])]))):
         R['rdm.rdms.RDMs.' + meth] = (lambda mk: lambda w: (w.rdms(), mk(w), {}))(mk)
 
     for meth in ('copy', 'get_matrices', 'get_vectors', 'to_df', 'to_dict'):
@@ -500,14 +629,16 @@ def _recipes():
             R[cls + '.copy'] = lambda w: (mk(w), [], {})
             R[cls + '.to_dict'] = lambda w: (mk(w), [], {})
             # 'sess' / 'hemi' hold a single value: the split has one part, the whole object
-            R[cls + '.split_obs'] = lambda w: (mk(w), [w.pick(['conds', 'sess', 'runs'])], {})
-            R[cls + '.split_channel'] = lambda w: (mk(w), [w.pick(['rois', 'hemi', 'vox'])], {})
+            R[cls + '.split_obs'] = lambda w: (mk(w), [w.pick(['conds', 'sess', 'runs', 'blk', 'onset'])], {})
+            R[cls + '.split_channel'] = lambda w: (mk(w), [w.pick(['rois', 'hemi', 'vox', 'chan', 'depth'])], {})
             R[cls + '.subset_obs'] = lambda w: (mk(w), w.pick(
                 [L(['conds', 'c1']), L(['conds', ['c0', 'c2']]), L(['trial', 3]), L(['trial', [1, 4]]),
-                 lambda: ['trial', list(range(w.size()))], L(['trial', [2]])])(), {})
+                 lambda: ['trial', list(range(w.size()))], L(['trial', [2]]),
+                 L(['blk', np.array([31, 30])]), L(['onset', 1.25]), L(['onset', [0.25, 1.25]])])(), {})
             R[cls + '.subset_channel'] = lambda w: (mk(w), w.pick(
                 [L(['rois', 'V2']), L(['rois', ['V1', 'V2']]), L(['vox', 'v1']), L(['vox', ['v2']]),
-                 lambda: ['vox', [f'v{i}' for i in range(w.size())]]])(), {})
+                 lambda: ['vox', [f'v{i}' for i in range(w.size())]],
+                 L(['chan', [40, 42]]), L(['depth', 1.5]), L(['depth', np.array([2.5, 1.5])])])(), {})
 
             def save(w):
                 ft = w.pick(['hdf5', 'pkl'])
@@ -609,12 +740,16 @@ def _recipes():
                 if (w.seed // 3) % 2 == 0:
                     # as crossval does: the data hold a subset of the patterns, the model is
                     # restricted with a real index array
-                    idx = np.arange(1, w.n_cond)
-                    data = data.subset_pattern('index', idx)
+                    # (crossval: `rdms.subsample_pattern(by=pattern_descriptor, value=pattern_idx)`)
+                    pd = w.pdesc(absent_ok=True)
+                    if pd in (None, 'cat'):
+                        pd = 'index'
+                    idx = np.unique(data.pattern_descriptors[pd])[1:]      # a fresh, ascending ndarray
+                    data = data.subsample_pattern(pd, idx)
                     if kw.get('sigma_k') is not None:
                         kw['sigma_k'] = kw['sigma_k'][1:, 1:].copy()
                     kw['pattern_idx'] = idx
-                    kw['pattern_descriptor'] = 'index'
+                    kw['pattern_descriptor'] = pd
                     w.tag('pattern_idx:array')
                 return None, [w.model(k), data], kw
             return f
@@ -661,15 +796,24 @@ def _recipes():
     def _(w):
         from rsatoolbox.inference import sets_k_fold
         data = w.data_rdms()
-        tr, te, ce = sets_k_fold(data, k_pattern=2, k_rdm=2, random=False)
-        return None, [models_arg(w), data, tr, te], {'ceil_set': ce, 'method': 'cosine'}
+        pd = w.pdesc(absent_ok=True)
+        if pd == 'cat':
+            pd = 'stim'      # two groups of patterns cannot be split into two folds with >= 2 groups
+        kw = {} if pd is None else {'pattern_descriptor': pd}
+        # random=True (alt 0): the index arrays inside the sets are unsorted ndarrays
+        tr, te, ce = sets_k_fold(data, k_pattern=2, k_rdm=2, random=bool(w.random_opt()), **kw)
+        return None, [models_arg(w), data, tr, te], dict(kw, ceil_set=ce, method='cosine')
 
     @reg('inference.noise_ceiling.cv_noise_ceiling')
     def _(w):
         from rsatoolbox.inference import sets_k_fold
         data = w.data_rdms()
-        tr, te, ce = sets_k_fold(data, k_pattern=2, k_rdm=2, random=False)
-        return None, [data, ce, te], {'method': 'cosine'}
+        pd = w.pdesc(absent_ok=True)
+        if pd == 'cat':
+            pd = 'stim'
+        kw = {} if pd is None else {'pattern_descriptor': pd}
+        tr, te, ce = sets_k_fold(data, k_pattern=2, k_rdm=2, random=bool(w.random_opt()), **kw)
+        return None, [data, ce, te], dict(kw, method='cosine')
 
     R['inference.noise_ceiling.boot_noise_ceiling'] = lambda w: (None, [w.data_rdms()], {'method': 'cosine'})
     for nm in ('bootstrap_sample', 'bootstrap_sample_pattern', 'bootstrap_sample_rdm'):
@@ -677,9 +821,9 @@ def _recipes():
     R['inference.crossvalsets.sets_k_fold'] = lambda w: (None, [w.rdms(n_rdm=4)], {'k_rdm': 2, 'k_pattern': 2})
     R['inference.crossvalsets.sets_k_fold_pattern'] = lambda w: (None, [w.rdms()], {'k': 2})
     R['inference.crossvalsets.sets_k_fold_rdm'] = lambda w: (None, [w.rdms(n_rdm=4)], {'k_rdm': 2})
-    R['inference.crossvalsets.sets_leave_one_out_pattern'] = lambda w: (None, [w.rdms(), 'cond'], {})
+    R['inference.crossvalsets.sets_leave_one_out_pattern'] = lambda w: (None, [w.rdms(), w.pdesc()], {})
     R['inference.crossvalsets.sets_leave_one_out_rdm'] = lambda w: (None, [w.rdms()], {})
-    R['inference.crossvalsets.sets_of_k_pattern'] = lambda w: (None, [w.rdms()], {'pattern_descriptor': 'cond', 'k': 2})
+    R['inference.crossvalsets.sets_of_k_pattern'] = lambda w: (None, [w.rdms()], {'k': 2})
     R['inference.crossvalsets.sets_of_k_rdm'] = lambda w: (None, [w.rdms(n_rdm=4)], {'k': 2})
     R['inference.crossvalsets.sets_random'] = lambda w: (None, [w.rdms(n_rdm=4)], {'n_rdm': 2, 'n_pattern': 2})
 
@@ -709,10 +853,18 @@ def _recipes():
 
     # --- util
     R['util.data_utils.extract_dict'] = lambda w: (None, [w.rdms().pattern_descriptors, [0, 2]], {})
-    R['util.data_utils.get_unique_inverse'] = lambda w: (None, [np.array(w.dataset().obs_descriptors['conds'])], {})
-    R['util.data_utils.get_unique_unsorted'] = lambda w: (None, [np.array(w.dataset().obs_descriptors['conds'])], {})
-    R['util.descriptor_utils.bool_index'] = lambda w: (None, [w._d(w.conds()), 'c1'], {})
-    R['util.descriptor_utils.num_index'] = lambda w: (None, [w._d(w.conds()), ['c1', 'c2']], {})
+    def label_arg(w):
+        """a label sequence as the library's own callers pass it (an obs descriptor of a dataset): str
+           with repeats / ascending repeat-free int / the seed's int and float classes; list or ndarray"""
+        # keyed by `rot` (independent of the list / ndarray parity of the seed): str with repeats,
+        # unsorted int (or the seed's float class), ascending repeat-free int
+        v = w.dataset().obs_descriptors[['conds', ['blk', 'onset'][w.alt], 'trial'][w.rot]]
+        w.tag('label-arg:' + classify(v))
+        return v
+    R['util.data_utils.get_unique_inverse'] = lambda w: (None, [label_arg(w)], {})
+    R['util.data_utils.get_unique_unsorted'] = lambda w: (None, [label_arg(w)], {})
+    R['util.descriptor_utils.bool_index'] = lambda w: (None, [w._d(w.conds()), w.pick(['c1', ['c1', 'c0'], np.array(['c2', 'c1'])])], {})
+    R['util.descriptor_utils.num_index'] = lambda w: (None, [w._d(w.conds()), w.pick([['c1', 'c2'], np.array(['c2', 'c1', 'c2'])])], {})
     R['util.descriptor_utils.check_descriptor_length'] = lambda w: (None, [w.rdms().pattern_descriptors, w.n_cond], {})
     R['util.descriptor_utils.check_descriptor_length_error'] = lambda w: (
         None, [w.rdms().pattern_descriptors, 'pattern_descriptors', w.n_cond], {})
@@ -765,7 +917,7 @@ def _recipes():
     R['util.matrix.row_col_indicator_rdm'] = lambda w: (None, [4], {})
     R['util.matrix.square_between_category_binary_mask'] = lambda w: (None, [[0, 1], [2, 3]], {'size': 5})
     R['util.matrix.square_category_binary_mask'] = lambda w: (None, [[0, 2]], {'size': 5})
-    R['util.rdm_utils.add_pattern_index'] = lambda w: (None, [w.rdms(), 'cond'], {})
+    R['util.rdm_utils.add_pattern_index'] = lambda w: (None, [w.rdms(), w.pdesc(absent_ok=True)], {})
     R['util.rdm_utils.batch_to_matrices'] = lambda w: (
         None, [w.rdms().dissimilarities.copy() if w.pick([0, 1]) else w.rdms().get_matrices()], {})
     R['util.rdm_utils.batch_to_vectors'] = lambda w: (
@@ -840,6 +992,68 @@ RECIPES = _recipes()
 NO_FACTORY = {}
 
 
+_PARAMS = {}
+DESC_OPTIONS = ('pattern_descriptor', 'rdm_descriptor', 'random')
+
+
+def params_of(qualname):
+    """parameter names of a public callable (by introspection, cached)"""
+    if not _PARAMS:
+        from engines import C12_heap
+        for q, (kind, fn, owner) in C12_heap.discover().items():
+            try:
+                _PARAMS[q] = list(inspect.signature(fn).parameters)
+            except (TypeError, ValueError):
+                _PARAMS[q] = []
+    return _PARAMS.get(qualname, [])
+
+
+def has_desc_options(qualname):
+    """does the callable take a grouping descriptor / the `random` switch?  (these get twice the
+       argument seeds: 12 consecutive seeds cover every (list | array) x dtype x selection class)"""
+    return any(p in DESC_OPTIONS for p in params_of(qualname))
+
+
+def _auto_options(w, qualname, kind, args, kwargs):
+    """every callable that has a `pattern_descriptor` / `rdm_descriptor` / `random` parameter the
+       recipe did not decide gets it from the seed's rotation (found from the signature, so a new
+       function with such a parameter is covered as soon as it has a recipe)"""
+    names = params_of(qualname)
+    if kind == 'method' and names[:1] == ['self']:
+        names = names[1:]
+    for opt, choose in (('pattern_descriptor', w.pdesc), ('rdm_descriptor', w.rdesc), ('random', w.random_opt)):
+        if opt not in names or opt in kwargs or opt in w.noauto or names.index(opt) < len(args):
+            continue
+        v = choose(True) if opt != 'random' else choose()
+        if v is not None:
+            kwargs[opt] = v
+
+
+def _tag_selection(w, qualname, self_obj, args, kwargs):
+    """coverage tags `sel:<pattern|rdm>:<value class of the descriptor the callable groups by>`
+       (`default` when the option is left out), and `sel:pattern:array:asc+shuffle` for the class
+       "ascending repeat-free ndarray selected and the randomised branch requested"""
+    names = [n for n in params_of(qualname) if n != 'self']
+    if not any(o in names for o in DESC_OPTIONS[:2]):
+        return
+    bound = dict(zip(names, args))
+    bound.update(kwargs)
+    from rsatoolbox.rdm.rdms import RDMs
+    objs = [x for x in [self_obj] + list(args) + list(kwargs.values()) if isinstance(x, RDMs)]
+    for opt, fam, attr in (('pattern_descriptor', 'pattern', 'pattern_descriptors'),
+                           ('rdm_descriptor', 'rdm', 'rdm_descriptors')):
+        if opt not in names:
+            continue
+        name = bound.get(opt)
+        if name is None or not objs or name not in getattr(objs[0], attr):
+            w.tag(f'sel:{fam}:default')
+            continue
+        cls = classify(getattr(objs[0], attr)[name])
+        w.tag(f'sel:{fam}:{cls}')
+        if fam == 'pattern' and cls.startswith('array:asc') and bound.get('random') is True:
+            w.tag('sel:pattern:array:asc+shuffle')
+
+
 def build_call(qualname, seed):
     key = qualname[len('rsatoolbox.'):]
     if qualname in NO_FACTORY:
@@ -848,8 +1062,11 @@ def build_call(qualname, seed):
         raise Uncovered('no argument factory')
     w = World(seed)
     self_obj, args, kwargs = RECIPES[key](w)
+    args, kwargs = list(args), dict(kwargs)
+    _auto_options(w, qualname, 'method' if self_obj is not None else 'function', args, kwargs)
+    _tag_selection(w, qualname, self_obj, args, kwargs)
     build_call.last_tags = sorted(w.tags)
-    return self_obj, list(args), dict(kwargs)
+    return self_obj, args, kwargs
 
 
 def invoke(kind, fn, owner, qualname, self_obj, args, kwargs):
